@@ -6,6 +6,6 @@ CONSTANTS NTx = 3 Kind <- KindS Sender <- SenderS Nonce <- NonceS NAccs = 1 Accs
 INIT Init
 NEXT Next
 VIEW view
-INVARIANTS TypeOK ExactlyOnceFIFO NoLostWakeup ExecBatchBound
+INVARIANTS TypeOK ExactlyOnceFIFO NoLostWakeup TokenAfterAppend ExecBatchBound
 PROPERTIES RejectHasNoEffect CapacityOnPush StrictCapacityOnPush ReloadIsTheLog
 CHECK_DEADLOCK FALSE
